@@ -1256,8 +1256,10 @@ pub fn time_4(hour_value: &Value, minute_value: &Value, second_value: &Value, du
         if (0..24).contains(hour) && (0..60).contains(minute) && (0..60).contains(second) {
           let seconds = second.trunc();
           let nanoseconds = (second.fract() * FeelNumber::nano()).trunc();
+          // the offset has the same range as in time literals: from -14:59:59 to +14:59:59
+          let offset_limit = FeelDaysAndTimeDuration::default().second(15 * 3_600).build();
           match duration_value {
-            Value::DaysAndTimeDuration(duration) => {
+            Value::DaysAndTimeDuration(duration) if duration.abs() < offset_limit => {
               if let Some(feel_time) = FeelTime::new_hmso_opt(
                 hour.to_u8().unwrap(),
                 minute.to_u8().unwrap(),
